@@ -78,6 +78,7 @@ def scan_object(obj):
         return best["name"] if best else "%s+0x%x" % (sec, off)
 
     stores, addr_taken, undefined_targets = [], 0, []
+    refs = set()          # (enclosing label, referenced symbol name or writable symbol of this object)
     if not any(f.get("alloc") and n.startswith(".text") for n, f in secs.items()):
         pass
     txt = sh(["objdump", "-dr", "-M", "intel", "--insn-width=16", obj])
@@ -89,6 +90,11 @@ def scan_object(obj):
         if i is None or not i["relocs"]:
             return
         for (off, rtype, sym, add) in i["relocs"]:
+            if sym in secs:
+                if sym in wsecs:
+                    refs.add((i["func"] or "?", covering(sym, add + (i["end"] - off) if rtype in ("PC32", "PC64") else add)))
+            else:
+                refs.add((i["func"] or "?", sym))
             if rtype in ("PLT32", "GOTPCREL", "GOTPCRELX", "REX_GOTPCRELX", "GOTPCREL64", "TPOFF32", "GOTTPOFF"):
                 if rtype.startswith("GOT") or "TPOFF" in rtype:
                     # GOT loads yield an address: stores through it are indirect (run-time half);
@@ -183,7 +189,8 @@ def scan_object(obj):
                           "global": s["flags"][0] == "g", "offset": s["value"], "align": secs[sec]["align"]})
     anon = [{"obj": name, "name": sec, "section": sec, "size": f["size"], "bss": f["bss"], "global": False, "offset": 0, "align": f["align"]}
             for sec, f in secs.items() if f["w"] and f["size"] > 0 and not by_sec.get(sec)]
-    return {"obj": name, "stores": stores, "und_stores": undefined_targets, "wsyms": wsyms + anon, "addr_taken": addr_taken,
+    defs = sorted({x["name"] for x in syms if x["sec"].startswith(".text") and x["flags"][0] == "g"})
+    return {"obj": name, "refs": sorted(refs), "defs": defs, "stores": stores, "und_stores": undefined_targets, "wsyms": wsyms + anon, "addr_taken": addr_taken,
             "wsecs": {s: secs[s]["size"] for s in wsecs if secs[s]["size"]}}
 
 
@@ -355,7 +362,8 @@ def generate(objdir, repo, fips=False):
     info = {"error": err, "n_objects": len(res), "stores": stores, "bss": bss, "n_data_syms": len([s for s in wsyms if not s["bss"]]),
             "data_syms_by_obj": {r["obj"]: len([s for s in r["wsyms"] if not s["bss"]]) for r in res if r["wsyms"]},
             "wsyms": wsyms, "c_sources": len(srcs), "c_statics_nonconst": nc,
-            "addr_taken": sum(r["addr_taken"] for r in res), "dispatch_ptrs": disp}
+            "addr_taken": sum(r["addr_taken"] for r in res), "dispatch_ptrs": disp,
+            "graph": {r["obj"]: {"refs": r["refs"], "defs": r["defs"]} for r in res}}
     return "\n".join(lines) + "\n", info
 
 
